@@ -15,16 +15,13 @@ import os
 from lib.common import InfraError, findings_for, log, parallel_map, sh, sha, tlc
 from props import cop_lib as L
 
-PROGRAM = """fn main() -> int {
-    (println "before")
-    (println (digit_value 55))
-    (println (digit_value 55))
-    (println "after")
-    return 0
-}
-shadow main { assert (== (main) 0) }
-"""
-INPROC_LINES = ("before", "7", "7", "after")
+def program(k):
+    return "fn main() -> int {\n    (println \"before\")\n" + "    (println (digit_value 55))\n" * k + \
+           "    (println \"after\")\n    return 0\n}\nshadow main { assert (== (main) 0) }\n"
+
+
+def steps_for(k):
+    return ["beforeready", "afterready"] + ["%s%d" % (b, i) for b in ("reqread", "reply", "midreply") for i in range(1, k + 1)]
 
 # deviation-switch sets tried, smallest explanation first
 DEV_SETS = [("VM_SIGPIPE_DEFAULT",), ("DE_LEN_WRAP",), ("DE_COUNT_UNBOUNDED",), ("VM_SIGPIPE_DEFAULT", "DE_LEN_WRAP", "DE_COUNT_UNBOUNDED")]
@@ -41,6 +38,10 @@ def finding_for(findings, switch, step, kind):
 
 def run(ctx):
     quick = ctx.tier == "quick"
+    K = 2 if quick else 3
+    STEPS = steps_for(K)
+    PROGRAM = program(K)
+    INPROC_LINES = ("before",) + ("7",) * K + ("after",)
     tree = ctx.build("plain")
     probe = ctx.probe("cop_probe")
     c = L.extract_consts(ctx, tree, probe)
@@ -49,19 +50,19 @@ def run(ctx):
     cov = {"constants": {k: c[k] for k in ("COP_MAX_PAYLOAD", "COP_PROTO_VERSION", "REQBUF", "hooks")}}
 
     # ---------------------------------------------------------------- 1. model checking of the design
-    r0 = tlc(ctx, "CopProtocol", "CopProtocol", constants=L.protocol_constants(c), workers=4, deadlock=True, coverage=True)
+    r0 = tlc(ctx, "CopProtocol", "CopProtocol", constants=L.protocol_constants(c, k=K, steps=STEPS), workers=4, deadlock=True, coverage=True)
     if r0.violated:
         raise InfraError("CopProtocol (no deviation switch) violates %s:\n%s" % (r0.violated, "\n".join(r0.trace[-3:])[-3000:]))
     allowed0 = L.outcome_sets(r0.records)
     scripts = {(s["step"], s["kind"]): s for s in r0.records if s.get("k") == "script"}
-    if len(scripts) != len(L.STEPS) * len(L.KINDS) + 1:
-        raise InfraError("expected %d scenarios, TLC emitted %d" % (len(L.STEPS) * len(L.KINDS) + 1, len(scripts)))
+    if len(scripts) != len(STEPS) * len(L.KINDS) + 1:
+        raise InfraError("expected %d scenarios, TLC emitted %d" % (len(STEPS) * len(L.KINDS) + 1, len(scripts)))
     cov["model"] = {"scenarios": len(scripts), "states": r0.distinct, "invariants": "NeverSignaled NoOrphan PrefixIntact OutcomeAllowed GarbledOnlyBySplice HealthySame Relaunched + deadlock(stall)",
                     "actions_taken": {k: v[0] for k, v in r0.coverage.items()}}
     # the same model with the deviation switches (what the unchanged code does), outcomes only
     allowed_dev = []
     for dev in DEV_SETS:
-        rd = L.run_tlc_protocol(ctx, c, dev)
+        rd = L.run_tlc_protocol(ctx, c, dev, k=K, steps=STEPS)
         allowed_dev.append((dev, L.outcome_sets(rd.records)))
 
     # ---------------------------------------------------------------- 2. replay through the stand-in
@@ -88,6 +89,7 @@ def run(ctx):
         r = L.run_vm(ctx, tree, runner, nvm, work, tag, isolate=True, cop_dir=fake_dir, extra_env=env, timeout_ms=30000)
         evs = L.read_fake_log(logf)
         r["script"] = script
+        r["calls"] = K
         r["cop_pids"] = {e["pid"] for e in evs if e["what"] in ("start", "healthy")}
         r["fault_done"] = any(e["what"] == "fault" for e in evs)
         r["trace"] = trace if c["hooks"] and os.path.exists(trace) else None
@@ -126,6 +128,8 @@ def run(ctx):
                 verdict = ("outcome", "observed %s; allowed by the spec: %s" % (L.fmt_outcome(obs), "; ".join(L.fmt_outcome(o) for o in sorted(allowed0.get(key, [])))))
         if isinstance(verdict, tuple):
             n_bad += 1
+            if n_bad > 12:
+                continue            # enough replay artifacts; the count is in the evidence
             rep = ctx.save_replay("scenario-%s-%s-%s.json" % (step, kind, sched), json.dumps({
                 "property": "C16", "kind": "scenario", "script": r["script"], "program": PROGRAM, "why": verdict[1],
                 "observed": {"res": r["res"], "code": r["code"], "stdout": r["stdout"].decode(errors="replace"), "stderr": r["stderr"][-600:], "orphans": r["orphans"]},
@@ -138,10 +142,10 @@ def run(ctx):
                      "samples": samples}
 
     # ---------------------------------------------------------------- 3. decoder on hostile bytes
-    rh0 = tlc(ctx, "CopCodec", "CopCodecHostile", constants=L.codec_constants(c, "hostile"), workers=4)
+    rh0 = tlc(ctx, "CopCodec", "CopCodecHostile", constants=L.codec_constants(c, "hostile", big=not quick), workers=4)
     if rh0.violated:
         raise InfraError("CopCodec hostile mode without deviation switches violates %s" % rh0.violated)
-    rh = tlc(ctx, "CopCodec", "CopCodecEmit", constants=L.codec_constants(c, "hostile", dev=("DE_LEN_WRAP", "DE_COUNT_UNBOUNDED")), workers=4)
+    rh = tlc(ctx, "CopCodec", "CopCodecEmit", constants=L.codec_constants(c, "hostile", big=not quick, dev=("DE_LEN_WRAP", "DE_COUNT_UNBOUNDED")), workers=4)
     cases = [x for x in rh.records if x.get("k") == "hostile"]
     casefile = os.path.join(work, "hostile.ndjson")
     with open(casefile, "w") as f:
@@ -189,15 +193,27 @@ def run(ctx):
         "messages are smaller than the pipe capacity (no blocking writes); K = 2 extern calls",
         "a garbled reply whose bytes form a well-formed message is accepted (the protocol has no checksum): the spec predicts the exact value the program then prints",
     ]
-    level = "model_checking"
-    return level, cov, assumptions
+    tv = cov["trace_validation"]
+    cov.update({
+        "evaluations": len(results) + len(cases),
+        "distinct_nontrivial": len({(st, kd, o) for (st, kd, o) in distinct if kd != "none"}),
+        "rule": "every (step, kind) of the fault space (%d steps x %d kinds + the fault-free run) is replayed under %d schedules through the stand-in; a case is the triple (step, kind, observed outcome), non-trivial when a fault is injected; plus %d hostile byte strings through the real decoder" % (len(STEPS), len(L.KINDS), len(scheds), len(cases)),
+        "exhaustive": True,
+        "states": r0.distinct + rh0.distinct, "transitions": r0.generated + rh0.generated,
+        "traces_validated_against_impl": tv.get("executions", 0) if tv.get("accepted") or tv.get("accepted_after_rerun") else 0,
+        "samples": samples,
+    })
+    return "fault_enumeration", cov, assumptions
 
 
 def replay(ctx, path):
-    d = json.load(open(path))
     tree = ctx.build("plain")
     probe = ctx.probe("cop_probe")
     c = L.extract_consts(ctx, tree, probe)
+    if path.endswith(".ndjson"):
+        from props import cop_trace
+        return cop_trace.replay_trace(ctx, c, probe, path, "C16")
+    d = json.load(open(path))
     fake_dir, runner = L.build_standins(ctx, tree)
     work = ctx.dir("replay")
     if d.get("kind") == "hostile":
@@ -216,7 +232,8 @@ def replay(ctx, path):
     obs = L.observed_outcome(r, {e["pid"] for e in evs if e["what"] in ("start", "healthy")})
     print("script:   %s\nobserved: %s\nstderr:   %s\norphans:  %s" % (d["script"], L.fmt_outcome(obs), r["stderr"].strip()[-300:], r["orphans"]))
     step = dict(x.split("=", 1) for x in d["script"].split(","))
-    r0 = tlc(ctx, "CopProtocol", "CopProtocol", constants=L.protocol_constants(c), workers=4, deadlock=True)
+    k = d["program"].count("digit_value")
+    r0 = tlc(ctx, "CopProtocol", "CopProtocol", constants=L.protocol_constants(c, k=k, steps=steps_for(k)), workers=4, deadlock=True)
     allowed = L.outcome_sets(r0.records).get((step["step"], step["kind"], 9), set())
     print("allowed:  %s" % "; ".join(L.fmt_outcome(o) for o in sorted(allowed)))
     if obs not in allowed or r["timeout"]:
